@@ -340,6 +340,7 @@ Proof.
   all: unfold guard, after_irel, lv_entry, wake_entry, wake_tail, wake_rel, end_pc in *.
   all: repeat match goal with c : kont |- _ => destruct c end.
   all: prep.
+  all: try abstract (split_ifs Hts; split_ifs Hef; try discriminate; injection Hts as <-; injection Hef as <- <-; finish).
   all: try (split_ifs Hts; split_ifs Hef; try discriminate; injection Hts as <-; injection Hef as <- <-; finish).
   (* _dispatch_dispose: the finalizer bookkeeping *)
   all: try (match goal with |- context [?r0 DISP + 1 =? 1] => assert (D0 : r0 DISP = 0) by lia end; rewrite D0 in *; cbn [Z.add Pos.add Z.eqb Pos.eqb andb] in *;
